@@ -71,7 +71,7 @@ func genC12(e *emitter, tier string, seed int64) {
 	}
 	// ---- default_time: layouts x zones ----
 	stamps := []string{
-		"06/Jan/2017:16:16:37 +0000", "02/Dec/2021:11:55:34 -0500", "02/Dec/2021:11:55:34 -0330", "2021/02/27 - 4:14:20", "Tue May 8 06:25:05.176170 2021", "14 May 2019 19:11:40.164", "14 May 19:11:40.164", "171113 14:14:20", "2021/02/27 - 14:14:20",
+		"01/Jan/1970:00:00:00 +0000", "31/Dec/1969:23:59:59 +0000", "691231 23:59:59", "1969/12/31 - 23:59:59", "06/Jan/2017:16:16:37 +0000", "02/Dec/2021:11:55:34 -0500", "02/Dec/2021:11:55:34 -0330", "2021/02/27 - 4:14:20", "Tue May 8 06:25:05.176170 2021", "14 May 2019 19:11:40.164", "14 May 19:11:40.164", "171113 14:14:20", "2021/02/27 - 14:14:20",
 		"Tue May 18 06:25:05.176170 2021", "2021-05-27 06:54:14.760 UTC", "2021-03-15T00:08:10Z", "2017-12-29T12:33:33.095243Z",
 		"1610358231887", "1610358231", "2014-04-26 17:24:37.3186369", "May 8, 2009 5:57:51 PM", "not a time", "", "12345",
 	}
@@ -105,7 +105,7 @@ func genC12(e *emitter, tier string, seed int64) {
 	// (XPath functions applied to arguments of the wrong kind or number: the xpath package reports some of
 	// these only while evaluating — as a failed query, not as a crash)
 	xps := []string{`/a/b[@id='2']`, `//c`, `/a/b/@id`, `//nosuch`, `///`, `/r/v`, `count(//b)`,
-		`//b[starts-with(1,2)]`, `//b[substring(.,0)]`, `//b[contains(., 1)]`, `concat(1)`, `//b[position()=last()]`, `string-length(1,2)`, `//b[translate(.,1,2)]`,
+		`(//b)[1]`, `(/a/b)[last()]`, `(//b)[2]/@id`, `(//b | //c)[1]`, `//b[starts-with(1,2)]`, `//b[substring(.,0)]`, `//b[contains(., 1)]`, `concat(1)`, `//b[position()=last()]`, `string-length(1,2)`, `//b[translate(.,1,2)]`,
 		`//*[name(1)]`, `sum(//b)`, `//b[ends-with(.,1)]`, `boolean()`, `normalize-space(1, 2)`, `//b[substring-before(1)]`, `//b[number(.) > 1 div 0]`, `//b[last() - 1][1]`, `/a/b[0]`, `//b[-1]`, `(`, `//b[`}
 	for _, d := range docs {
 		for _, xp := range xps {
